@@ -12,6 +12,12 @@ CLAIMED = {
             "generates the same inputs, and validates every result of the real functions against the same TLA+ contract "
             "(decode-preserved, delimiters stay escaped, no raw space, no new control, idempotent, escapes kept).",
             "Trusted: TLC, the TLA+ definitions of percent-decoding/UTF-8 (spec/Pct.tla, spec/Text.tla), the Python driver that only moves code points."),
+    "C01": ("DESIGN.md section 4 / C01",
+            "TLA+ URL oracle (Split/Den) + stage-by-stage reference pipeline model checked by TLC; TLC-generated URL grammar replayed into canonicalize_url; results judged by TLC trace spec (Den equality per component), parser cross-checked against urlsplit",
+            "TLC checks that the reference canonicalisation pipeline preserves the denoted resource on every URL of the bounded grammar, "
+            "generates the grammar (12 focus contexts x all token sequences, component-form product), and judges every result of the real "
+            "canonicalize_url by re-parsing and decoding both sides in TLA+ (scheme, userinfo, host, port, path segments, trailing slash, query items, fragment).",
+            "Trusted: TLC, Url.tla/Pct.tla/Text.tla (parser cross-checked against urllib per event), IDNA equivalence limited to the oracle's table."),
     "C10": ("DESIGN.md section 4 / C10",
             "implementation-shaped TLA+ model of TrieDict checked by TLC against a finite-map spec (refinement, counters, observers); edge cover of the reachable state graph replayed into the real class; projections validated by TLC trace spec",
             "TLC explores every assignment history over a small key universe (full reachable graph), proves the trie model refines a "
